@@ -279,6 +279,7 @@ func (ce *chainEnv) deploy(t testing.TB, c compiled) (h util.Uint160, err error)
 	if err != nil {
 		return h, err
 	}
+	ic.VM.SetGasLimit(10 * gasBound) // deployment itself costs 10 GAS and runs _initialize
 	ic.VM.LoadWithFlags(script, callflag.All)
 	err = ic.VM.Run()
 	ic.Finalize()
